@@ -44,7 +44,20 @@ def exec_stmt(eng, node, st):
     m = globals().get('st_' + type(node).__name__)
     if m is None:
         raise Unsupported("statement %s at line %d" % (type(node).__name__, node.lineno))
-    outs = m(eng, node, st)
+    snapshot_pc = list(st.pc)
+    try:
+        outs = m(eng, node, st)
+    except (Unsupported, ContractError) as e:
+        if getattr(eng.frame, 'inline_depth', 0):
+            raise
+        # a construct outside the subset is tolerated on a path only if that path is infeasible
+        # (e.g. `acc = 0` never becoming an array because a loop with >= 1 iterations is skipped)
+        dead = State.__new__(State)
+        dead.__dict__.update(st.__dict__)
+        dead.pc = snapshot_pc
+        dead.guards = []
+        eng.oblige(dead, "deadpath@L%d:%s" % (getattr(node, 'lineno', 0), str(e)[:60]), 'deadpath', z3.BoolVal(False), node)
+        return []
     return outs
 
 
@@ -311,6 +324,28 @@ def st_Try(eng, node, st):
 
 
 # ---------------------------------------------------------------- loops
+def inplace_only_names(body):
+    """names that are only ever the target of an augmented assignment in `body` (x += ...): for arrays and
+    lists this mutates the object in place and leaves the binding unchanged"""
+    aug, other = set(), set()
+
+    class W(ast.NodeVisitor):
+        def visit_AugAssign(self, n):
+            if isinstance(n.target, ast.Name):
+                aug.add(n.target.id)
+            self.visit(n.value)
+
+        def visit_Name(self, n):
+            if isinstance(n.ctx, ast.Store):
+                other.add(n.id)
+
+        def visit_FunctionDef(self, n):
+            other.add(n.name)
+    for s_ in body:
+        W().visit(s_)
+    return aug - other
+
+
 def assigned_names(body):
     out = set()
 
@@ -459,7 +494,14 @@ def check_inv(eng, st, lc, ordn, phase, node, extra_env=None):
         env.update(extra_env)
     f = eng.frame
     for label, clause in f.contract.labelled(lc.get('inv', []), 'inv'):
-        t = eval_bool(eng, clause, env, st, old=(f.entry_env, f.entry_heap))
+        try:
+            t = eval_bool(eng, clause, env, st, old=(f.entry_env, f.entry_heap))
+        except (ContractError, Unsupported) as e:
+            # the clause is not even well-typed on this path (e.g. an accumulator that is still the int 0):
+            # acceptable only if the path is infeasible
+            eng.oblige(st, "loop%s:%s:%s:path-where-clause-is-ill-typed-is-infeasible" % (ordn, label, phase),
+                       'inv:' + phase, z3.BoolVal(False), node)
+            continue
         eng.oblige(st, "loop%s:%s:%s" % (ordn, label, phase), 'inv:' + phase, t, node, hints=lc.get('hints', ()))
 
 
@@ -487,7 +529,12 @@ def run_loop(eng, node, st, ordn, lc, idxname, d, guard_fn, bind_fn, step_fn, ex
         st.assume(t)
     check_inv(eng, st, lc, ordn, 'init', node)
     entry_alloc = st.heap.alloc
-    mods = calls.eval_assign_targets(eng, lc.get('modifies', []), st.env, st)
+    try:
+        mods = calls.eval_assign_targets(eng, lc.get('modifies', []), st.env, st)
+    except ContractError as e:
+        # the loop contract does not type-check in this state: only acceptable on an infeasible path
+        eng.oblige(st, "loop%s:path-where-loop-contract-is-ill-typed-is-infeasible" % ordn, 'inv:init', z3.BoolVal(False), node)
+        return []
     mods_frame = []
     from .verify import frame_entry
     for m in mods:
@@ -500,6 +547,10 @@ def run_loop(eng, node, st, ordn, lc, idxname, d, guard_fn, bind_fn, step_fn, ex
     na = z3.Int(fresh_name('alloc'))
     head.assume(na >= head.heap.alloc)
     head.heap.new_epoch(na)
+    for n_ in inplace_only_names(node.body):
+        v_ = head.env.get(n_)
+        if v_ is not None and isinstance(v_.k, tuple) and v_.k[0] in ('arr', 'list'):
+            names.discard(n_)       # mutated in place: same object, contents covered by `modifies`
     havoc_names(eng, head, names)
     if idxname and idxname.startswith('_k'):
         head.env['_k'] = head.env[idxname]      # `_k` is the contract-visible alias of the hidden index
@@ -607,6 +658,31 @@ def st_For(eng, node, st):
         if idxname.startswith('_k'):
             s.env['_k'] = s.env[idxname]
 
+    if lc.get('peel'):
+        # first iteration executed on its own (a variable may change kind in it, e.g. `acc = 0; acc += array`),
+        # the remaining iterations are cut at the invariant
+        ex = st.copy()
+        g0 = _sync(guard, idxname)(ex)
+        ex.assume(z3.Not(g0))
+        ex.trail.append("loop%s:zero-iterations" % ordn)
+        outs.append((NORMAL, ex))
+        first = st
+        first.assume(_sync(guard, idxname)(first))
+        first.trail.append("loop%s:first" % ordn)
+        _sync(bind, idxname)(first)
+        import copy as _copy
+        d2 = _copy.copy(d)
+        d2.start = d.start + d.step
+        for (o, s1) in exec_block(eng, node.body, first):
+            if o[0] in ('normal', 'continue'):
+                step(s1)
+                lc2 = dict(lc)
+                outs += run_loop(eng, node, s1, ordn, lc2, idxname, d2, _sync(guard, idxname), _sync(bind, idxname), step)
+            elif o[0] == 'break':
+                outs.append((NORMAL, s1))
+            else:
+                outs.append((o, s1))
+        return outs
     # keep '_k' in sync on the havocked head: run_loop havocs idxname; alias after
     res = run_loop(eng, node, st, ordn, lc, idxname, d, _sync(guard, idxname), _sync(bind, idxname), step)
     return outs + res
